@@ -51,7 +51,7 @@ def base_doc() -> dict:
         },
         "components": {
             "schemas": {
-                "Thing": obj({"name": {"type": "string", "description": "prop text", "default": "dflt"}, "kind": ref("Kind"), "size": {"type": "integer"}}, ["name"], description="schema text"),
+                "Thing": obj({"name": {"type": "string", "description": "prop text"}, "nick": {"type": "string", "default": "dflt"}, "kind": ref("Kind"), "size": {"type": "integer"}}, ["name"], description="schema text"),
                 "Kind": {"type": "string", "enum": ["alpha", "beta"], "description": "enum text"},
                 "Label": {"type": "string", "description": "alias text"},
                 "A1": obj({"type": {"type": "string"}, "a": {"type": "string"}}, ["type"]),
@@ -127,7 +127,7 @@ POSITIONS: dict[str, tuple[Callable[[dict, str], None], bool]] = {
     "property_description": (_set(S + ["Thing", "properties", "name"], "description"), False),
     "property_name": (_prop_name, True),
     "enum_value": (_enum_value, True),
-    "string_default": (_set(S + ["Thing", "properties", "name"], "default"), False),
+    "string_default": (_set(S + ["Thing", "properties", "nick"], "default"), False),
     "query_param_name": (_query_name, True),
     "header_param_name": (_header_name, True),
     "param_description": (lambda d, t: _get(d)["parameters"][1].__setitem__("description", t), False),
@@ -149,7 +149,22 @@ POSITIONS: dict[str, tuple[Callable[[dict, str], None], bool]] = {
 NAME_PREFIX = {p: "q" for p in ("property_name", "query_param_name", "header_param_name", "discriminator_property", "enum_value", "discriminator_value", "tag_name")}
 
 
+# text that LOOKS like Python constructs (all "plain" for the lexical automaton, hostile for line-based text scanners)
+CODELIKE = {
+    "code_asyncdef": "async def drop_all(self, confirm: bool = True) -> None:",
+    "code_def": "def helper(x):",
+    "code_class": "class Injected:",
+    "code_decorator": "@staticmethod",
+    "code_import": "import os",
+    "code_return": "return None",
+    "code_args": "Args:",
+    "code_protocol": "class XProtocol(Protocol):",
+}
+
+
 def payload_text(classes: list[str]) -> str:
+    if len(classes) == 1 and classes[0] in CODELIKE:
+        return CODELIKE[classes[0]]
     return "".join(CHARS[c] for c in classes)
 
 
@@ -183,9 +198,20 @@ def run(chk: Check) -> None:
     chosen = ps if thorough else transition_cover(ps)
     # classic hostile endings that matter for docstrings / literals (made of the same alphabet, length <= 4)
     extra = [["plain", "bs"], ["plain", "dq"], ["dq", "dq", "dq"], ["plain", "dq", "dq", "dq"], ["bs", "dq"], ["lbrace", "plain", "rbrace"], ["plain", "cr", "plain"], ["plain", "lf", "plain"], ["bs", "plain"], ["sq", "sq", "sq"]]
+    # quote / backslash runs of length 2..5, and every hostile single character, both at the END of the text and INSIDE it
+    for c in ("dq", "sq", "bs"):
+        for n in (2, 3, 4, 5):
+            extra.append([c] * n)
+    inner = []
+    for pl in [p["payload"] for p in chosen if len(p["payload"]) <= 2] + extra:
+        if any(c != "plain" for c in pl):
+            inner.append(["plain"] + list(pl) + ["plain"])
+    extra += inner
+    extra += [[k] for k in CODELIKE]
     have = {json.dumps(p["payload"]) for p in chosen}
     for e in extra:
         if json.dumps(e) not in have:
+            have.add(json.dumps(e))
             chosen.append({"payload": e, "escapes": [], "trans": []})
     chk.cov["payloads"] = len(chosen)
     chk.cov["transitions_covered"] = len({tuple(t) for p in ps for t in p["trans"]})
@@ -242,7 +268,7 @@ def run(chk: Check) -> None:
 
     obs = {jid: observe(jid) for jid, m in meta.items() if not m["baseline"]}
     # culprit attribution: the hostile class of the payload with the highest failure rate at this position in this run
-    ORDER = ["dq", "sq", "bs", "lf", "cr", "lbrace", "rbrace", "hash", "nonascii"]
+    ORDER = ["dq", "sq", "bs", "lf", "cr", "lbrace", "rbrace", "hash", "nonascii"] + sorted(CODELIKE)
     stats: dict[tuple, list] = {}
     for jid, o in obs.items():
         m = meta[jid]
@@ -260,7 +286,16 @@ def run(chk: Check) -> None:
             culprit = max(hostile, key=lambda c: (stats[(m["pos"], c)][1] / stats[(m["pos"], c)][0], -ORDER.index(c)))
         else:
             culprit = "plain"
-        traces.append({"id": jid, "pos": m["pos"], "classes": hostile, "culprit": culprit, **o})
+        pl = m["payload"]
+        where = "none"
+        run = 0
+        if culprit in pl:
+            where = "end" if pl[-1] == culprit else "inner"
+            cur = 0
+            for c in pl:
+                cur = cur + 1 if c == culprit else 0
+                run = max(run, cur)
+        traces.append({"id": jid, "pos": m["pos"], "classes": hostile, "culprit": culprit, "where": where, "run": min(run, 4), **o})
     d = chk.scratch.sub("text_traces")
     tf = d / "t.ndjson"
     with tf.open("w") as f:
@@ -275,7 +310,7 @@ def run(chk: Check) -> None:
     for v in vs:
         m = meta[v["id"]]
         chk.count()
-        if any(c != "plain" for c in m["payload"]):
+        if any(c != "plain" for c in m["payload"]):  # code-like payloads count as non-plain too
             chk.nontrivial({"pos": m["pos"], "p": m["payload"]})
         if not obs[v["id"]]["accepted"]:
             rejected += 1
